@@ -28,7 +28,7 @@ type Ctx struct {
 // Prepared is what a property's Prepare step hands to the generic runner.
 type Prepared struct {
 	Jobs          []*Job
-	Targets       map[string]*ReplayTarget // job name -> native replay target
+	Targets       map[string]*ReplayTarget // harness package path -> native replay target
 	Bounds        map[string]interface{}
 	Assumptions   []string
 	Stubs         []string
@@ -116,6 +116,7 @@ var wsRe = regexp.MustCompile(`\s+`)
 
 type vioRec struct {
 	job     *Job
+	pkg     string
 	harness string
 	v       *interp.Violation
 	sig     Sig
@@ -167,7 +168,7 @@ func RunCheck(ctx *Ctx, prepare func(*Ctx) (*Prepared, error), level string) int
 		fatal                                                     []string
 		funcErrors                                                []string
 		vios                                                      []*vioRec
-		witnesses                                                 = map[string][]ReplayCase{} // job name -> cases
+		witnesses                                                 = map[string][]ReplayCase{} // package path -> cases
 		qTotal, qSat, qUnsat, qUnknown, qErr                      int
 		solverTime, solverMax                                     time.Duration
 		harnessesRun                                              int
@@ -208,6 +209,14 @@ func RunCheck(ctx *Ctx, prepare func(*Ctx) (*Prepared, error), level string) int
 			encoded[f] = true
 		}
 		for _, fr := range r.Funcs {
+			if strings.HasPrefix(fr.Error, "not-analysable:") {
+				if prep.NotAnalysable == nil {
+					prep.NotAnalysable = map[string]string{}
+				}
+				pk := fr.Func[:strings.LastIndex(fr.Func, ".")]
+				prep.NotAnalysable[pk] = strings.TrimPrefix(fr.Error, "not-analysable:")
+				continue
+			}
 			if fr.Error != "" {
 				funcErrors = append(funcErrors, r.Job+"/"+fr.Func+": "+fr.Error)
 				continue
@@ -231,14 +240,42 @@ func RunCheck(ctx *Ctx, prepare func(*Ctx) (*Prepared, error), level string) int
 				assertIDs[k] += v
 			}
 			h := fr.Func[strings.LastIndex(fr.Func, ".")+1:]
+			pk := fr.Func[:strings.LastIndex(fr.Func, ".")]
 			for _, v := range fr.Violations {
 				s := prep.Normalize(j, v)
 				s.Harness = h
-				vios = append(vios, &vioRec{job: j, harness: h, v: v, sig: s})
+				vios = append(vios, &vioRec{job: j, pkg: pk, harness: h, v: v, sig: s})
 			}
 			for _, w := range fr.Witnesses {
-				witnesses[r.Job] = append(witnesses[r.Job], ReplayCase{Func: h, Script: w, Runs: 1})
+				witnesses[pk] = append(witnesses[pk], ReplayCase{Func: h, Script: w, Runs: 1})
 			}
+		}
+	}
+	// slowest harnesses (diagnostics)
+	if os.Getenv("VERIF_PROFILE") != "" {
+		type hf struct {
+			name string
+			fr   *FuncResult
+		}
+		var all []hf
+		for _, r := range results {
+			for _, fr := range r.Funcs {
+				all = append(all, hf{r.Job + "/" + fr.Func, fr})
+			}
+		}
+		sort.Slice(all, func(i, j int) bool { return all[i].fr.WallS > all[j].fr.WallS })
+		for i, h := range all {
+			if i >= 25 {
+				break
+			}
+			fmt.Printf("  slow: %-50s %.1fs paths=%d forks=%d incon=%v\n", h.name, h.fr.WallS, h.fr.Paths, h.fr.Forks, h.fr.InconReasons)
+		}
+		sort.Slice(results, func(i, j int) bool { return results[i].WallS > results[j].WallS })
+		for i, r := range results {
+			if i >= 5 {
+				break
+			}
+			fmt.Printf("  slow job: %s %.1fs load=%.1fs queries=%d solver=%.1fs\n", r.Job, r.WallS, r.LoadS, r.Solver.Queries, r.Solver.Time.Seconds())
 		}
 	}
 	// expected reach markers
@@ -261,7 +298,7 @@ func RunCheck(ctx *Ctx, prepare func(*Ctx) (*Prepared, error), level string) int
 	var disagreements []string
 	byJob := map[string][]*vioRec{}
 	for _, v := range vios {
-		byJob[v.job.Name] = append(byJob[v.job.Name], v)
+		byJob[v.pkg] = append(byJob[v.pkg], v)
 	}
 	var jobNames []string
 	for n := range byJob {
@@ -392,7 +429,7 @@ func RunCheck(ctx *Ctx, prepare func(*Ctx) (*Prepared, error), level string) int
 		}
 		seenSig[key] = true
 		dir := filepath.Join(replayDir, sigHash(key))
-		writeReplayDir(dir, ctx, v, prep.Targets[v.job.Name])
+		writeReplayDir(dir, ctx, v, prep.Targets[v.pkg])
 		v.replay = dir
 		violationLines = append(violationLines, fmt.Sprintf("VIOLATION property=%s replay=%s", ctx.ID, dir))
 		fmt.Printf("  violation: %s\n    at %s: %s\n    %s\n    native: %s\n", v.sig, v.v.Site, v.v.Stmt, v.v.Detail, v.outcome.Summary)
@@ -554,6 +591,7 @@ type replayFile struct {
 	Property string          `json:"property"`
 	Tier     string          `json:"tier"`
 	Job      string          `json:"job"`
+	Pkg      string          `json:"pkg"`
 	Harness  string          `json:"harness"`
 	Sig      Sig             `json:"signature"`
 	Site     string          `json:"site"`
@@ -572,7 +610,7 @@ func writeReplayDir(dir string, ctx *Ctx, v *vioRec, tg *ReplayTarget) {
 	if v.v.Kind == "assert" {
 		runs = 24
 	}
-	rf := replayFile{Property: ctx.ID, Tier: ctx.Tier, Job: v.job.Name, Harness: v.harness, Sig: v.sig, Site: v.v.Site, Stmt: v.v.Stmt,
+	rf := replayFile{Property: ctx.ID, Tier: ctx.Tier, Job: v.job.Name, Pkg: v.pkg, Harness: v.harness, Sig: v.sig, Site: v.v.Site, Stmt: v.v.Stmt,
 		Detail: v.v.Detail, Script: v.v.Script, Notes: v.v.Notes, Native: v.outcome.Summary,
 		Case:  ReplayCase{Func: v.harness, Script: v.v.Script, Runs: runs, Kind: v.v.Kind, ID: v.v.ID},
 		HowTo: "bin/vcheck replay " + dir + "  (regenerates the code under test from /repo, rebuilds the harness natively and feeds it the script)"}
@@ -601,9 +639,9 @@ func Replay(dir string, ctx *Ctx, prepare func(*Ctx) (*Prepared, error)) int {
 		fmt.Println("prepare:", err)
 		return 2
 	}
-	tg := prep.Targets[rf.Job]
+	tg := prep.Targets[rf.Pkg]
 	if tg == nil {
-		fmt.Println("no replay target for job", rf.Job)
+		fmt.Println("no replay target for package", rf.Pkg)
 		return 2
 	}
 	t := *tg
